@@ -127,6 +127,35 @@ Section Seq.
       rewrite (writes_snd _ _ _ _ H0), (writes_snd _ _ _ _ Hw); auto.
   Qed.
 
+  Lemma TInvX_weaken : forall x T, TInvX None T -> TInvX x T.
+  Proof. intros x T H k. destruct (H k) as [S1 C1]. split; [exact S1|]. intros _; apply C1; discriminate. Qed.
+
+  (* one write of the (reversed) loop keeps the FULL invariant: the plain-key entry goes in last *)
+  Lemma TInvX_write_full : forall T k w, t_regs T = D -> TInvX None T -> In w (Wk k T) ->
+    aget T k = Some (handlers (chain (t_regs T) k)) ->
+    (wkey w = (0, k) -> forall w', In w' (Wk k T) -> w' <> w -> present T w') ->
+    TInvX None (apply_wr T w).
+  Proof.
+    intros T k w HR H Hw AG LAST k'.
+    pose proof (TInvX_write T k w (TInvX_weaken (Some k) T H) Hw) as H'.
+    destruct (H' k') as [S1 C1]. split; [exact S1|]. intros _ h Hd.
+    destruct (Nat.eq_dec k' k) as [->|N]; [|apply (C1 ltac:(intros E; injection E as ->; auto) h Hd)].
+    assert (HR' : t_regs (apply_wr T w) = t_regs T) by (destruct w; reflexivity).
+    assert (HA : forall q, aget (apply_wr T w) q = aget T q) by (destruct w; reflexivity).
+    unfold Complete, Wk. rewrite HR', HA. split; [exact AG|].
+    intros w' Hw'. destruct (ckey_eqb (wkey w') (wkey w)) eqn:EK.
+    - apply ckey_eqb_eq in EK.
+      assert (w' = w) as -> by (eapply (nodup_map_inj wkey); [apply (keys_nodup T k HR)|exact Hw'|exact Hw|exact EK]).
+      apply present_apply_self.
+    - assert (NK : wkey w' <> wkey w) by (intros E; rewrite E, ckey_eqb_refl in EK; discriminate).
+      apply present_apply_other; [exact NK|].
+      destruct (ckey_eqb (wkey w) (0, k)) eqn:E0.
+      + apply ckey_eqb_eq in E0. apply LAST; auto. intros ->; apply NK; reflexivity.
+      + assert (N0 : (0, k) <> wkey w) by (intros E; rewrite <- E, ckey_eqb_refl in E0; discriminate).
+        rewrite dget_apply_neq in Hd by exact N0.
+        destruct (H k) as [_ C0]. destruct (C0 ltac:(discriminate) h Hd) as [_ CP]. apply CP; exact Hw'.
+  Qed.
+
   Lemma TInvX_close : forall T k, TInvX (Some k) T -> Complete T k -> TInvX None T.
   Proof.
     intros T k H C k'. destruct (H k') as [S1 C1]. split; [exact S1|].
@@ -148,6 +177,16 @@ Section Seq.
     - destruct H as [E|H]; [discriminate|].
       apply wkeys_in in H as [H|[y [_ H]]]; cbn in H; discriminate.
     - destruct H as [E|[]]. injection E as <-. eauto.
+  Qed.
+
+  Lemma writes_head : forall k rs, rs <> [] -> exists w0 W', writes_from k 0 rs = w0 :: W' /\ wkey w0 = (0, k).
+  Proof. intros k [|[h|hs] rest] N; [contradiction| |]; cbn; eauto. Qed.
+
+  Lemma split_before_last : forall {X} (l : list X) a d w ws, l ++ [a] = d ++ w :: ws -> ws <> [] -> In w l.
+  Proof.
+    intros X l a d w ws E N. destruct (exists_last N) as (ws' & z & ->).
+    change (d ++ w :: ws' ++ [z]) with (d ++ (w :: ws') ++ [z]) in E. rewrite app_assoc in E.
+    apply app_inj_tail in E as [-> _]. apply in_or_app; right; left; reflexivity.
   Qed.
 
   Lemma walk_pre : forall pre rest tr, all_next meth pre -> walk meth (pre ++ rest) tr = walk meth rest (tr ++ handlers pre).
@@ -231,9 +270,9 @@ Section Seq.
         end
     | PDispatch k => o = OCall k /\ l_trace l = [] /\ Good s
     | PMro t k cl => o = OCall k /\ l_trace l = [] /\ cl = None /\ t = s_map s /\ Good s
-    | PWrite t k cl st ws => o = OCall k /\ l_trace l = [] /\ cl = None /\ t = s_map s /\ GoodX (Some k) s /\
-        (st = false -> Good s) /\ chain D k <> [] /\ aget (tbl s t) k = Some (handlers (chain D k)) /\
-        exists done, Wk k (tbl s t) = done ++ ws /\ forall w, In w done -> present (tbl s t) w
+    | PWrite t k cl st ws => o = OCall k /\ l_trace l = [] /\ cl = None /\ t = s_map s /\ Good s /\
+        chain D k <> [] /\ aget (tbl s t) k = Some (handlers (chain D k)) /\
+        exists done, rev (Wk k (tbl s t)) = done ++ ws /\ forall w, In w done -> present (tbl s t) w
     | PAfter t k cl => o = OCall k /\ l_trace l = [] /\ cl = None /\ t = s_map s /\ Good s /\ chain D k <> [] /\
         Complete (tbl s t) k
     | PRun h ob k => o = OCall k /\ Good s /\ Complete (tbl s (s_map s)) k /\ registered (tbl s (s_map s)) h ob = true /\
@@ -383,7 +422,7 @@ Section Seq.
     destruct (chain (t_regs T) k) as [|r rest] eqn:E; lcbn.
     - unfold LInv; lcbn. split; [exact G'|]. unfold spec_call. rewrite <- HR, E. reflexivity.
     - unfold LInv; lcbn. split; [reflexivity|]. split; [reflexivity|]. split; [reflexivity|]. split; [reflexivity|].
-      split; [apply Good_GoodX; exact G'|]. split; [intros _; exact G'|].
+      split; [exact G'|].
       rewrite <- HR, E. split; [discriminate|]. rewrite TB. split.
       + rewrite <- E. apply aget_mro_eq.
       + exists []. split; [|intros w []]. unfold Wk. change (t_regs (mro_upd T k)) with (t_regs T). rewrite E. reflexivity.
@@ -393,29 +432,42 @@ Section Seq.
     LInv o (fst (step s {| l_pc := PWrite t k cl st ws; l_trace := tr |})) (snd (step s {| l_pc := PWrite t k cl st ws; l_trace := tr |})).
   Proof.
     intros o s tr t k cl st ws H. unfold LInv in H; cbn [l_pc l_trace] in H.
-    destruct H as (-> & -> & -> & -> & G & GS & NE & AG & done & EW & PR).
+    destruct H as (-> & -> & -> & -> & G & NE & AG & done & EW & PR).
     unfold tstep; lcbn. set (T := tbl s (s_map s)) in *.
     pose proof (Good_regs _ _ G) as HR. fold T in HR.
     destruct ws as [|w ws]; lcbn.
     - (* loop finished *)
       rewrite app_nil_r in EW.
       assert (Cp : Complete T k).
-      { split; [rewrite HR; exact AG|]. intros w Hw. apply PR. rewrite <- EW; exact Hw. }
-      unfold LInv; lcbn. repeat (split; [reflexivity|]). split; [eapply GoodX_close; eauto|]. split; [exact NE|exact Cp].
+      { split; [rewrite HR; exact AG|]. intros w Hw. apply PR. rewrite <- EW. apply in_rev in Hw; exact Hw. }
+      unfold LInv; lcbn. repeat (split; [reflexivity|]). split; [exact G|]. split; [exact NE|exact Cp].
     - (* one write *)
-      assert (Hw : In w (Wk k T)) by (rewrite EW; apply in_or_app; right; left; reflexivity).
+      assert (Hw : In w (Wk k T)) by (apply in_rev; rewrite EW; apply in_or_app; right; left; reflexivity).
       assert (HR' : t_regs (apply_wr T w) = t_regs T) by (destruct w; reflexivity).
       assert (HO' : t_obj (apply_wr T w) = t_obj T) by (destruct w; reflexivity).
       assert (TB : tbl (set_tbl s (s_map s) (apply_wr T w)) (s_map s) = apply_wr T w) by (apply tbl_set_eq; apply G).
-      assert (G' : GoodX (Some k) (set_tbl s (s_map s) (apply_wr T w))).
-      { apply Good_setmap; auto. rewrite HR'; exact HR. apply TInvX_write; auto. apply G. }
-      unfold LInv; lcbn. repeat (split; [reflexivity|]). split; [exact G'|]. split; [discriminate|]. split; [exact NE|].
+      assert (NDK : NoDup (map wkey (Wk k T))) by (apply keys_nodup; exact HR).
+      assert (LAST : wkey w = (0, k) -> forall w', In w' (Wk k T) -> w' <> w -> present T w').
+      { intros EK w' Hw' NW.
+        destruct (writes_head k (chain (t_regs T) k)) as (w0 & W' & EW0 & K0); [rewrite HR; exact NE|].
+        unfold Wk in *. rewrite EW0 in *. cbn [rev] in EW.
+        assert (w = w0) as -> by (eapply (nodup_map_inj wkey); [exact NDK|exact Hw|left; reflexivity|rewrite EK, K0; reflexivity]).
+        assert (ws = []) as ->.
+        { destruct ws as [|z ws']; [reflexivity|exfalso].
+          assert (I : In w0 (rev W')) by (eapply split_before_last; [exact EW|discriminate]).
+          apply in_rev in I. cbn in NDK. inversion NDK as [|? ? NI _]; subst. apply NI. apply in_map; exact I. }
+        apply app_inj_tail in EW as [ED _]. apply PR. rewrite <- ED. apply in_rev.
+        destruct Hw' as [<-|Hw']; [contradiction|]. rewrite rev_involutive; exact Hw'. }
+      assert (G' : Good (set_tbl s (s_map s) (apply_wr T w))).
+      { apply Good_setmap; auto. rewrite HR'; exact HR.
+        apply (TInvX_write_full T k w HR); auto. apply G. rewrite HR; exact AG. }
+      unfold LInv; lcbn. repeat (split; [reflexivity|]). split; [exact G'|]. split; [exact NE|].
       rewrite TB. split; [destruct w; exact AG|].
       exists (done ++ [w]). split.
       + unfold Wk in *. rewrite HR'. rewrite EW, <- app_assoc. reflexivity.
       + intros w0 H0. apply in_app_or in H0 as [H0|[<-|[]]]; [|apply present_apply_self].
         apply present_apply_other; [|apply PR; exact H0].
-        eapply nodup_keys_split; [|exact H0]. rewrite <- EW. apply keys_nodup. exact HR.
+        eapply nodup_keys_split; [|exact H0]. rewrite <- EW, map_rev. apply NoDup_rev. exact NDK.
   Qed.
 
   Lemma step_after : forall o s tr t k cl, LInv o s {| l_pc := PAfter t k cl; l_trace := tr |} ->
@@ -584,7 +636,7 @@ Section Seq.
     intros n s k R r SP.
     assert (I : LInv (OCall k) s (start (OCall k))) by (unfold LInv; cbn; auto).
     apply (run_alone_inv n) in I. fold r in I. destruct r as [s1 l1]. cbn [fst snd] in *.
-    unfold safe_point, before_swap, in_compile, in_write_window in SP. unfold LInv in I. unfold Ready.
+    unfold safe_point, before_swap, in_compile in SP. unfold LInv in I. unfold Ready.
     destruct (l_pc l1) as [o'|  |c a|k'|t k' cl|t k' cl st ws|t k' cl|h k'|h k'|t h k'|t h k'|r'].
     - destruct I as (_ & _ & I); exact I.
     - destruct I as (I & _). exfalso; eapply I; reflexivity.
@@ -592,17 +644,209 @@ Section Seq.
       destruct c; cbn in SP; try discriminate; left; unfold Recov; cbn in I; tauto.
     - right; apply I.
     - right; apply I.
-    - destruct I as (_ & _ & _ & -> & G & GS & NE & AG & done & EW & PR).
-      destruct st; [|right; auto]. destruct ws; [|discriminate].
-      right. eapply GoodX_close; eauto. rewrite app_nil_r in EW. split.
-      + rewrite (Good_regs _ _ G); exact AG.
-      + intros w Hw; apply PR; rewrite <- EW; exact Hw.
     - right; apply I.
     - right; apply I.
     - right; apply I.
     - right; apply I.
     - right; apply I.
     - right; apply I.
+    - right; apply I.
+  Qed.
+
+  (* ---- threads on a built function: every step of a call keeps the shared state consistent, and a thread's own
+     invariant is stable under the other threads' steps (entries are only ever added, with the values resolution
+     determines) ---- *)
+  Definition lookup_pc (l : local) : bool :=
+    match l_pc l with
+    | PStart (OCall _) | PDispatch _ | PMro _ _ _ | PWrite _ _ _ _ _ | PAfter _ _ _
+    | PRun _ _ _ | PNext _ _ _ | PN1 _ _ _ _ | PN2 _ _ _ _ | PDone _ => true
+    | _ => false
+    end.
+
+  Definition Ext (s s' : shared) : Prop :=
+    s_map s' = s_map s /\ s_cnmap s' = s_cnmap s /\
+    let T := tbl s (s_map s) in let T' := tbl s' (s_map s) in
+    t_regs T' = t_regs T /\ t_obj T' = t_obj T /\
+    (forall c h, dget T c = Some h -> dget T' c = Some h) /\
+    (forall c e, eget T c = Some e -> eget T' c = Some e) /\
+    (forall q hs, aget T q = Some hs -> aget T' q = Some hs).
+
+  Lemma Ext_refl : forall s, Ext s s.
+  Proof. intros s. unfold Ext. repeat split; auto. Qed.
+
+  Lemma present_mono : forall s s' w, Ext s s' -> present (tbl s (s_map s)) w -> present (tbl s' (s_map s)) w.
+  Proof. intros s s' [c h|c e] (_ & _ & _ & _ & MD & ME & _) P; cbn in *; auto. Qed.
+
+  Lemma Complete_mono : forall s s' k, Ext s s' -> Complete (tbl s (s_map s)) k -> Complete (tbl s' (s_map s)) k.
+  Proof.
+    intros s s' k E [CA CP]. pose proof E as (_ & _ & HR & _ & _ & _ & MA). cbn zeta in *.
+    unfold Complete, Wk. rewrite HR. split; [apply MA; exact CA|].
+    intros w Hw. apply (present_mono s s' w E). apply CP. exact Hw.
+  Qed.
+
+  Lemma registered_mono : forall s s' h ob, Ext s s' -> registered (tbl s (s_map s)) h ob = true -> registered (tbl s' (s_map s)) h ob = true.
+  Proof. intros s s' h ob (_ & _ & _ & HO & _) R. cbn zeta in HO. unfold registered in *. rewrite HO. exact R. Qed.
+
+  Lemma AtNext_stable : forall s s' l h ob k, Ext s s' -> Good s' -> AtNext s l h ob k -> AtNext s' l h ob k.
+  Proof.
+    intros s s' l h ob k E G' (G & Cp & RG & R). pose proof E as (EM & _). unfold AtNext. rewrite EM.
+    split; [exact G'|]. split; [apply (Complete_mono s s' k E Cp)|]. split; [apply (registered_mono s s' h ob E RG)|exact R].
+  Qed.
+
+  Lemma LInv_stable : forall o s s' l, lookup_pc l = true -> Ext s s' -> Good s' -> LInv o s l -> LInv o s' l.
+  Proof.
+    intros o s s' [p tr] LP E G' H. pose proof E as (EM & ECN & HR & HO & MD & ME & MA). cbn zeta in *.
+    unfold lookup_pc in LP; cbn [l_pc] in LP. unfold LInv in *; cbn [l_pc l_trace] in *.
+    destruct p as [[k|d|d]| |c a|k|t k cl|t k cl st ws|t k cl|h ob k|h ob k|t h ob k|t h ob k|r]; try discriminate.
+    - destruct H as (<- & B & _). auto.
+    - destruct H as (A & B & _). auto.
+    - destruct H as (A & B & C & -> & _). rewrite EM. auto.
+    - destruct H as (A & B & C & -> & G & NE & AG & done & EW & PR). rewrite EM.
+      repeat (split; [first [assumption|reflexivity]|]). split; [apply MA; exact AG|].
+      exists done. unfold Wk in *. rewrite HR. split; [exact EW|]. intros w Hw. apply (present_mono s s' w E). apply PR; exact Hw.
+    - destruct H as (A & B & C & -> & G & NE & Cp). rewrite EM. repeat (split; [first [assumption|reflexivity]|]). apply (Complete_mono s s' k E Cp).
+    - destruct H as (A & G & Cp & RG & R). rewrite EM. split; [exact A|]. split; [exact G'|].
+      split; [apply (Complete_mono s s' k E Cp)|]. split; [apply (registered_mono s s' h ob E RG)|exact R].
+    - destruct H as (A & AT). split; [exact A|]. eapply AtNext_stable; eauto.
+    - destruct H as (A & -> & AT). rewrite EM. split; [exact A|]. split; [reflexivity|]. eapply AtNext_stable; eauto.
+    - destruct H as (A & -> & AT). rewrite EM. split; [exact A|]. split; [reflexivity|]. eapply AtNext_stable; eauto.
+    - destruct H as (G & R). auto.
+  Qed.
+
+  Lemma Ext_set : forall s T', s_map s < length (s_tables s) -> let T := tbl s (s_map s) in
+    t_regs T' = t_regs T -> t_obj T' = t_obj T ->
+    (forall c h, dget T c = Some h -> dget T' c = Some h) -> (forall c e, eget T c = Some e -> eget T' c = Some e) ->
+    (forall q hs, aget T q = Some hs -> aget T' q = Some hs) -> Ext s (set_tbl s (s_map s) T').
+  Proof.
+    intros s T' L T HR HO MD ME MA. unfold Ext. cbn [s_map s_cnmap set_tbl]. split; [reflexivity|]. split; [reflexivity|].
+    cbn zeta. rewrite tbl_set_eq by exact L. auto.
+  Qed.
+
+  (* what one step of a call does to the shared state *)
+  Lemma step_ext : forall o s l, Good s -> lookup_pc l = true -> LInv o s l ->
+    Ext s (fst (step s l)) /\ lookup_pc (snd (step s l)) = true.
+  Proof.
+    intros o s [p tr] G LP H. unfold lookup_pc in LP; cbn [l_pc] in LP.
+    pose proof G as (GE & _ & _ & GL & GR & GT & _).
+    destruct p as [[k|d|d]| |c a|k|t k cl|t k cl st ws|t k cl|h ob k|h ob k|t h ob k|t h ob k|r]; try discriminate;
+      unfold tstep; lcbn.
+    - rewrite GE. cbn. split; [apply Ext_refl|reflexivity].
+    - destruct (alookup ckey_eqb (0, k) (t_dict (tbl s (s_map s)))); cbn; split; try apply Ext_refl; reflexivity.
+    - unfold LInv in H; cbn [l_pc l_trace] in H. destruct H as (_ & _ & _ & -> & _).
+      set (T := tbl s (s_map s)).
+      assert (E : Ext s (set_tbl s (s_map s) {| t_regs := t_regs T; t_dict := t_dict T; t_errs := t_errs T;
+                    t_all := aupd Nat.eqb k (handlers (chain (t_regs T) k)) (t_all T); t_obj := t_obj T |})).
+      { apply Ext_set; auto. intros q hs Hq. fold T in Hq. change (aget (mro_upd T k) q = Some hs).
+        destruct (Nat.eq_dec q k) as [->|N]; [|rewrite aget_mro_neq; auto].
+        rewrite aget_mro_eq. destruct (GT k) as [(_ & _ & S3) _]. fold T in S3. rewrite (S3 hs Hq). reflexivity. }
+      destruct (chain (t_regs T) k); cbn; split; auto.
+    - unfold LInv in H; cbn [l_pc l_trace] in H. destruct H as (_ & _ & _ & -> & _ & NE & AG & done & EW & PR).
+      destruct ws as [|w ws]; cbn; [split; [apply Ext_refl|reflexivity]|]. split; [|reflexivity].
+      set (T := tbl s (s_map s)) in *.
+      assert (Hw : In w (Wk k T)) by (apply in_rev; rewrite EW; apply in_or_app; right; left; reflexivity).
+      assert (NDK : NoDup (map wkey (Wk k T))) by (apply keys_nodup; exact GR).
+      destruct (GT k) as [(S1 & S2 & _) _]. fold T in S1, S2.
+      apply Ext_set; auto; try (destruct w; reflexivity).
+      + intros c h Hd. fold T in Hd. destruct w as [c0 h0|c0 e0]; [|exact Hd].
+        destruct (ckey_eqb c c0) eqn:EC; [|unfold dget; cbn; rewrite alookup_aupd_neq; [exact Hd|apply ckey_eqb_eq|intros ->; rewrite ckey_eqb_refl in EC; discriminate]].
+        apply ckey_eqb_eq in EC; subst c0. pose proof (writes_snd _ _ _ _ Hw) as SK; cbn in SK.
+        destruct c as [c1 c2]; cbn in SK; subst c2. apply S1 in Hd.
+        assert (WDict (c1, k) h = WDict (c1, k) h0) as EQ by (eapply (nodup_map_inj wkey); eauto).
+        injection EQ as ->. unfold dget; cbn. apply alookup_aupd_eq. apply ckey_eqb_eq.
+      + intros c e Hd. fold T in Hd. destruct w as [c0 h0|c0 e0]; [exact Hd|].
+        destruct (ckey_eqb c c0) eqn:EC; [|unfold eget; cbn; rewrite alookup_aupd_neq; [exact Hd|apply ckey_eqb_eq|intros ->; rewrite ckey_eqb_refl in EC; discriminate]].
+        apply ckey_eqb_eq in EC; subst c0. pose proof (writes_snd _ _ _ _ Hw) as SK; cbn in SK.
+        destruct c as [c1 c2]; cbn in SK; subst c2. apply S2 in Hd.
+        assert (WErr (c1, k) e = WErr (c1, k) e0) as EQ by (eapply (nodup_map_inj wkey); eauto).
+        injection EQ as ->. unfold eget; cbn. apply alookup_aupd_eq. apply ckey_eqb_eq.
+      + intros q hs Hq. destruct w; exact Hq.
+    - destruct (alookup ckey_eqb (0, k) (t_errs (tbl s t))); cbn; [split; [apply Ext_refl|reflexivity]|].
+      destruct (alookup ckey_eqb (0, k) (t_dict (tbl s t))); cbn; [|split; [apply Ext_refl|reflexivity]].
+      destruct cl as [[c ob]|]; cbn; split; try apply Ext_refl; reflexivity.
+    - destruct (m_body (meth h)); cbn; split; try apply Ext_refl; reflexivity.
+    - destruct (registered _ h ob); [|cbn; split; [apply Ext_refl|reflexivity]].
+      destruct (alookup ckey_eqb (S h, k) _); cbn; split; try apply Ext_refl; reflexivity.
+    - destruct (alookup ckey_eqb (0, k) _); cbn; split; try apply Ext_refl; reflexivity.
+    - destruct (alookup Nat.eqb k _); cbn; [|split; [apply Ext_refl|reflexivity]].
+      destruct (negb _); cbn.
+      + destruct (alookup ckey_eqb (0, k) _); cbn; split; try apply Ext_refl; reflexivity.
+      + destruct (alookup ckey_eqb (S h, k) (t_errs _)); cbn; [split; [apply Ext_refl|reflexivity]|].
+        destruct (alookup ckey_eqb (S h, k) (t_dict _)); cbn; split; try apply Ext_refl; reflexivity.
+    - split; [apply Ext_refl|reflexivity].
+  Qed.
+
+  Lemma step_good : forall o s l, Good s -> lookup_pc l = true -> LInv o s l -> Good (fst (step s l)).
+  Proof.
+    intros o s l G LP H. pose proof (step_inv o s l H) as H'. destruct (step_ext o s l G LP H) as [_ LP'].
+    destruct l as [p tr]. unfold lookup_pc in LP; cbn [l_pc] in LP.
+    destruct p as [[k|d|d]| |c a|k|t k cl|t k cl st ws|t k cl|h ob k|h ob k|t h ob k|t h ob k|r]; try discriminate.
+    - unfold tstep; lcbn. destruct (s_entry s); exact G.
+    - unfold tstep; lcbn. destruct (alookup _ _ _); exact G.
+    - revert H' LP'. unfold tstep; lcbn. destruct (chain _ k); lcbn; unfold LInv, lookup_pc; lcbn; intros H' _; apply H'.
+    - revert H' LP'. unfold tstep; lcbn. destruct ws; lcbn; unfold LInv, lookup_pc; lcbn; intros H' _; apply H'.
+    - unfold tstep; lcbn. destruct (alookup _ _ (t_errs _)); [exact G|]. destruct (alookup _ _ (t_dict _)); exact G.
+    - unfold tstep; lcbn. destruct (m_body _); exact G.
+    - unfold tstep; lcbn. destruct (registered _ _ _); [|exact G]. destruct (alookup _ _ _); exact G.
+    - unfold tstep; lcbn. destruct (alookup _ _ _); exact G.
+    - unfold tstep; lcbn. destruct (alookup Nat.eqb _ _); [|exact G]. destruct (negb _).
+      + destruct (alookup _ _ _); exact G.
+      + destruct (alookup _ _ (t_errs _)); [exact G|]. destruct (alookup _ _ (t_dict _)); exact G.
+    - exact G.
+  Qed.
+
+  Definition PoolInv (s : shared) (ops : list op) (p : list local) : Prop :=
+    Good s /\ Forall2 (fun o l => lookup_pc l = true /\ LInv o s l) ops p.
+
+  Lemma Forall2_set_nth : forall {X Y} (R : X -> Y -> Prop) xs ys i x y, Forall2 R xs ys ->
+    nth_error xs i = Some x -> R x y -> Forall2 R xs (set_nth i y ys).
+  Proof.
+    intros X Y R xs ys i x y F; revert i. induction F as [|x0 y0 xs ys R0 F IH]; intros [|i] Hx Hr; cbn in *; try discriminate.
+    - injection Hx as ->. constructor; auto.
+    - constructor; auto.
+  Qed.
+  Lemma Forall2_nth : forall {X Y} (R : X -> Y -> Prop) xs ys i y, Forall2 R xs ys -> nth_error ys i = Some y ->
+    exists x, nth_error xs i = Some x /\ R x y.
+  Proof.
+    intros X Y R xs ys i y F; revert i. induction F as [|x0 y0 xs ys R0 F IH]; intros [|i] Hy; cbn in *; try discriminate.
+    - injection Hy as ->. eauto.
+    - apply IH; exact Hy.
+  Qed.
+
+  Lemma pool_step : forall s ops p i, PoolInv s ops p ->
+    PoolInv (fst (sched_step chain meth s p i)) ops (snd (sched_step chain meth s p i)).
+  Proof.
+    intros s ops p i [G F]. unfold sched_step. destruct (nth_error p i) as [l|] eqn:EL; [|split; auto].
+    destruct (Forall2_nth _ _ _ _ _ F EL) as (o & EO & LP & H).
+    pose proof (step_inv o s l H) as H'. destruct (step_ext o s l G LP H) as [E LP']. pose proof (step_good o s l G LP H) as G'.
+    destruct (step s l) as [s' l']. cbn [fst snd] in *. split; [exact G'|].
+    apply (Forall2_set_nth _ _ _ _ o l'); [|exact EO|split; assumption].
+    clear - F E G'. induction F as [|x0 y0 xs ys [LP0 R0] F IH]; constructor; auto.
+    split; [exact LP0|]. eapply LInv_stable; eauto.
+  Qed.
+
+  Lemma pool_schedule : forall sch s ops p, PoolInv s ops p ->
+    PoolInv (fst (run_schedule chain meth s p sch)) ops (snd (run_schedule chain meth s p sch)).
+  Proof.
+    induction sch as [|i sch IH]; intros s ops p H; cbn; [exact H|].
+    pose proof (pool_step s ops p i H) as H'. destruct (sched_step chain meth s p i) as [s' p']. apply IH; exact H'.
+  Qed.
+
+  (* on a built, consistent function ANY interleaving of ANY calls returns the outcomes over the complete table *)
+  Theorem built_interleaving : forall s ks sch, Good s ->
+    let r := run_schedule chain meth s (map (fun k => start (OCall k)) ks) sch in
+    Good (fst r) /\
+    forall i k x, nth_error ks i = Some k -> option_map result_of (nth_error (snd r) i) = Some (Some x) ->
+      x = spec_call chain meth D k.
+  Proof.
+    intros s ks sch G r.
+    assert (P0 : PoolInv s (map OCall ks) (map (fun k => start (OCall k)) ks)).
+    { split; [exact G|]. clear r. induction ks; cbn; constructor; auto. split; [reflexivity|]. unfold LInv; cbn. auto. }
+    pose proof (pool_schedule sch _ _ _ P0) as [G' F]. fold r in G', F. split; [exact G'|].
+    intros i k x Hk Hx. destruct (nth_error (snd r) i) as [l|] eqn:EL; [|discriminate]. cbn in Hx. injection Hx as Hx.
+    destruct (Forall2_nth _ _ _ _ _ F EL) as (o & EO & _ & H).
+    rewrite nth_error_map, Hk in EO. injection EO as <-.
+    unfold result_of in Hx. unfold LInv in H. destruct (l_pc l); try discriminate. injection Hx as <-.
+    destruct H as [_ H]. exact H.
   Qed.
 
   (* any change made while _compiled is set rebuilds everything, whatever the tables looked like *)
@@ -693,6 +937,41 @@ Section Assembled.
     { apply (calls_ready D ND OK ks0 fuel0 (init D) xs0); [left; unfold Recov, init; cbn; auto|exact H0]. }
     pose proof (safe_point_ready chain meth Hnd Hsub Hrec D ND OK n s k0 R SP) as R'.
     eapply (probes_correct chain meth Hnd Hsub Hrec D ND OK); [exact R'|exact HP].
+  Qed.
+
+  Lemma calls_from_good : forall D, NoDup D -> all_ok meth D = true -> forall ks fuel s xs, Good chain meth D s ->
+    snd (run_ops chain meth fuel s (map OCall ks)) = map Some xs -> Good chain meth D (fst (run_ops chain meth fuel s (map OCall ks))).
+  Proof.
+    intros D ND OK. induction ks as [|k ks IH]; intros fuel s xs G H; cbn in *; [exact G|].
+    destruct (run_op chain meth fuel s (OCall k)) as [s1 x] eqn:E1.
+    destruct (run_ops chain meth fuel s1 (map OCall ks)) as [s2 rest] eqn:E2. cbn in *.
+    destruct xs as [|x0 xs]; [discriminate|]. cbn in H. injection H as -> H.
+    destruct (call_correct chain meth Hnd Hsub Hrec D ND OK _ _ _ _ _ (or_intror G) E1) as [_ G1].
+    specialize (IH fuel s1 xs G1). rewrite E2 in IH. apply IH; exact H.
+  Qed.
+
+  (* C19, proved: once the function has been built by some completed call, ANY interleaving of ANY calls (resolved keys or
+     not, any number of threads) returns the outcomes over the complete table, and so does every probe afterwards. *)
+  Theorem built_threads : forall D, NoDup D -> all_ok meth D = true ->
+    forall k0 ks0 fuel0 xs0, snd (run_ops chain meth fuel0 (init D) (map OCall (k0 :: ks0))) = map Some xs0 ->
+    let s := fst (run_ops chain meth fuel0 (init D) (map OCall (k0 :: ks0))) in
+    forall ks sch, let r := run_schedule chain meth s (map (fun k => start (OCall k)) ks) sch in
+    (forall i k x, nth_error ks i = Some k -> option_map result_of (nth_error (snd r) i) = Some (Some x) ->
+       x = spec_call chain meth D k) /\
+    forall ps fuel xs, probes chain meth fuel (fst r) ps = map Some xs -> xs = map (spec_call chain meth D) ps.
+  Proof.
+    intros D ND OK k0 ks0 fuel0 xs0 H0 s ks sch r.
+    assert (G : Good chain meth D s).
+    { unfold s in *. cbn [map run_ops] in *.
+      destruct (run_op chain meth fuel0 (init D) (OCall k0)) as [s1 x] eqn:E1.
+      destruct (run_ops chain meth fuel0 s1 (map OCall ks0)) as [s2 rest] eqn:E2. cbn in *.
+      destruct xs0 as [|x0 xs0]; [discriminate|]. cbn in H0. injection H0 as -> H0.
+      assert (R0 : Ready chain meth D (init D)) by (left; unfold Recov, init; cbn; auto).
+      destruct (call_correct chain meth Hnd Hsub Hrec D ND OK _ _ _ _ _ R0 E1) as [_ G1].
+      pose proof (calls_from_good D ND OK ks0 fuel0 s1 xs0 G1) as G2. rewrite E2 in G2. apply G2; exact H0. }
+    destruct (built_interleaving chain meth Hnd Hsub Hrec D ND OK s ks sch G) as [G' R]. fold r in G', R.
+    split; [exact R|]. intros ps fuel xs HP.
+    eapply (probes_correct chain meth Hnd Hsub Hrec D ND OK); [right; exact G'|exact HP].
   Qed.
 
   (* C18, proved part 2: rebuild.  From ANY state in which _compiled is set (whatever a failed operation left behind),
